@@ -817,7 +817,8 @@ func (vfs *OrefaFS) Rename(oldname, newname string) error {
 		return &os.LinkError{Op: op, Old: oldname, New: newname, Err: vfs.err.NoSuchFile}
 	}
 
-	if oAbsPath == nAbsPath && !oChild.mode.IsDir() {
+	if oAbsPath == nAbsPath && (!oChild.mode.IsDir() || oldname != newname) {
+		// os.Rename refuses a directory as new name only when both names are the same string.
 		return nil
 	}
 
@@ -840,8 +841,19 @@ func (vfs *OrefaFS) Rename(oldname, newname string) error {
 		return &os.LinkError{Op: op, Old: oldname, New: newname, Err: err}
 	}
 
-	if (oChild.mode.IsDir() && nChildOk) || (!oChild.mode.IsDir() && nChildOk && nChild.mode.IsDir()) {
+	if nChildOk && nChild.mode.IsDir() && !(nChild == oChild && oldname != newname) {
+		// an existing directory is never replaced (see os.Rename).
 		err := vfs.err.FileExists
+		if vfs.OSType() == avfs.OsWindows {
+			err = avfs.ErrWinAccessDenied
+		}
+
+		return &os.LinkError{Op: op, Old: oldname, New: newname, Err: err}
+	}
+
+	if nChildOk && oChild.mode.IsDir() && nChild != oChild {
+		// a directory can't replace a file.
+		err := vfs.err.NotADirectory
 		if vfs.OSType() == avfs.OsWindows {
 			err = avfs.ErrWinAccessDenied
 		}
